@@ -4,14 +4,14 @@
 (* (b) forgetting: all well-formed lax terms in the bound whose hyperedges may  *)
 (* carry the variable label, any arity and label mix.                          *)
 EXTENDS Domains, Emit
-CONSTANTS L, MaxV, NL, N, E, A, I, Fam
+CONSTANTS L, MaxV, NL, N, E, A, I, Fam, BinK
 VARIABLES stage, kind, script, nv, f
 vars == <<stage, kind, script, nv, f>>
 P == <<"C19">>
 Vars == Range0(nv)
 Steps ==
   {[k |-> "var", label |-> lab] : lab \in NL}
-  \cup {[k |-> op, l |-> a, r |-> b] : op \in {"add", "mul", "xor"}, a \in Vars, b \in Vars}
+  \cup {[k |-> op, l |-> a, r |-> b] : op \in BinK, a \in Vars, b \in Vars}
   \cup {[k |-> "neg", l |-> a] : a \in Vars}
   \cup {[k |-> "op", vars |-> vs, results |-> rs, x |-> 13] : vs \in SeqsOfLen(Vars, 2), rs \in {<<0, 0>>}}
   \cup {[k |-> "op", vars |-> <<>>, results |-> <<lab>>, x |-> 6] : lab \in NL}
